@@ -63,7 +63,31 @@ def run_lr(r, prop, n_quick=12, n_thorough=150, also=()):
     # 3. runtime model = compiled parser
     r.obligations.append(("correspondence lr.parse: Lean runtime model = compiled generated parser on every input",
                           not mism, "%d mismatches" % len(mism)))
-    if (vfail or mism) and not mine:
+    # C03 only: on a table the validator accepted, the model's action log IS the post-order of the unique
+    # derivation tree with the documented sugar values (parse_actions_postorder, sugar_values). An accepted
+    # input on which the compiled parser logs other action calls is therefore a failing input of C03.
+    proven = []
+    if prop == "C03" and mism and not mine:
+        bad_pkgs = set()
+        for (i, c, im, mo) in vfail:
+            bad_pkgs.update(w for w in c.split() if w.startswith("$"))
+        for (i, c, im, mo) in mism:
+            if not c.startswith("lr.parse") or not (im.startswith("acc") and mo.startswith("acc")):
+                continue
+            if any(w in bad_pkgs for w in c.split() if w.startswith("$")):
+                continue
+            ai = [e for e in im.split(" ; ") if e.startswith("A ")]
+            am = [e for e in mo.split(" ; ") if e.startswith("A ")]
+            if ai != am:
+                rules = lambda xs: [e.split()[1] for e in xs]
+                kind = "other action calls" if rules(ai) != rules(am) else "the same action calls with other argument values"
+                proven.append((i, c, im, mo, kind))
+        for (i, c, im, mo, kind) in proven[:3]:
+            r.violation("lrgen-actions-%d" % i, {
+                "kind": "property-violated-by-implementation",
+                "what": "C03: on an accepted sentence the compiled parser executes %s than the post-order of the derivation tree (the model's log, proved by parse_actions_postorder / sugar_values for tables that pass LR.check)" % kind,
+                "implementation_output": im, "model_output": mo, "case_line": expand_lets(res["cases"], i)[:20000], "family": "lrgen", "seed": r.seed}, True)
+    if (vfail or mism) and not mine and not proven:
         first = (vfail or mism)[0]
         others = {k: len(v) for k, v in hits.items()}
         r.violation("lrgen-tie", {
